@@ -138,7 +138,7 @@ func c14(r *engine.Run) {
 		"parse:valid", "parse:reject:prefix", "parse:reject:x>=p", "parse:reject:not-on-curve",
 		"sign:low:ok", "sign:low:s-flipped", "sign:low:s==0", "sign:api:ok", "sign:api:reject:seckey", "sign:api:reject:null-hash",
 		"recover:ok", "recover:ok:recid&2", "recover:reject:r-range", "recover:reject:s-range", "recover:reject:recid", "recover:reject:r+n>=p", "recover:reject:no-point",
-		"verify:accept", "verify:reject:mismatch", "verify:reject:high-s", "verify:reject:recid",
+		"verify:accept", "verify:valid-high-s", "verify:reject:mismatch", "verify:reject:recid",
 		"ecdh:ok", "ecdh:reject:seckey", "ecdh:reject:pubkey",
 		"detkeys:ok", "detkeys:reject:empty-seed",
 	}
@@ -154,7 +154,7 @@ func c14(r *engine.Run) {
 		"scalars, messages, nonces, x coordinates, r and s range over the listed boundary alphabets only (curve order, field prime, powers of two, GLV constants and rounding steps, fixed digests); nothing is said about other 256-bit values",
 		"the random nonce inside cipher.SignHash / secp256k1.Sign is not controlled: those signatures are judged by relations (verify and recover under the model, s <= n/2, recid < 4), never by bytes; the nonce-dependent arithmetic is compared byte-for-byte through Signature.Sign with chosen nonces",
 		"secp256k1-go2 (low level) panics or lax acceptance on out-of-contract input are recorded in reject_by_panic / lowlevel_lax and not judged; package cipher and secp256k1-go are judged on every input, except that secp256k1.RecoverPubkey's pass-through of a recovery byte > 3 is recorded only (cipher.PubKeyFromSig is judged)",
-		"signature acceptance rule used by the oracle: recid < 4, bit 255 of s clear (the documented malleability rule; s in (n/2, 2^255) is C10's subject), and the key recovered by the model equals the given key",
+		"signature acceptance oracle: a signature is mathematically valid for a key when r,s are in [1,n-1], recid < 4 and the key recovered by the model equals the key; invalid must be rejected, valid with s <= n/2 must be accepted, valid with s > n/2 may be accepted or rejected (the low-s policy is C10's subject; what the code does is recorded in lowlevel_lax)",
 		"SHA256 / RIPEMD160 are trusted (stdlib / x/crypto in the model)")
 	alphabet["families"] = c.fam.Map()
 	r.Finish(engine.Coverage{
